@@ -13,6 +13,7 @@ import hmssim
 from . import plan as P
 
 ROOT = hmssim.VERIF_ROOT
+OUT = os.environ.get("VERIF_OUT", ROOT)  # evidence / replays of scratch runs (mutant sensitivity tests) go elsewhere
 LEVEL = "exploration"
 
 REAL_COMPONENTS = ["pyhms (all of it, from %s)" % hmssim.PYHMS_SRC, "cma", "scipy (L-BFGS-B, qmc, stats)", "numpy", "dill",
@@ -191,8 +192,8 @@ def run_batch(prop, tier, verif_seed, n_runs, budget_s, workers):
 
 
 def write_replay(prop, plan, violation, trace, suffix=""):
-    os.makedirs(os.path.join(ROOT, "replays"), exist_ok=True)
-    path = os.path.join(ROOT, "replays", "%s-%s%s.json" % (prop, plan["seed"], suffix))
+    os.makedirs(os.path.join(OUT, "replays"), exist_ok=True)
+    path = os.path.join(OUT, "replays", "%s-%s%s.json" % (prop, plan["seed"], suffix))
     with open(path, "w") as f:
         json.dump({"property": prop, "class_key": violation["class_key"], "violation": violation, "trace": trace,
                    "plan": plan}, f, indent=1, sort_keys=True, default=str)
@@ -210,6 +211,7 @@ def check(prop, tier):
     budget_s = float(os.environ.get("VERIF_BUDGET_S", "150" if tier == "quick" else "1500"))
     print("check %s tier=%s VERIF_SEED=%d runs=%d workers=%d pyhms=%s" % (prop, tier, verif_seed, n_runs, workers,
                                                                         hmssim.PYHMS_SRC), flush=True)
+    t_check0 = time.time()
     results, cut, wall = run_batch(prop, tier, verif_seed, n_runs, budget_s, workers)
     kf = known_findings()
     outcomes = {}
@@ -301,6 +303,7 @@ def check(prop, tier):
     for p in zero_probes:
         print("WARNING: probe %r stuck at zero" % p, flush=True)
 
+    wall = time.time() - t_check0
     evidence = {
         "property_id": prop,
         "tier": tier,
@@ -345,8 +348,8 @@ def check(prop, tier):
             "sampling, not enumeration: a clean batch is evidence, not proof",
         ],
     }
-    os.makedirs(os.path.join(ROOT, "evidence"), exist_ok=True)
-    with open(os.path.join(ROOT, "evidence", prop + ".json"), "w") as f:
+    os.makedirs(os.path.join(OUT, "evidence"), exist_ok=True)
+    with open(os.path.join(OUT, "evidence", prop + ".json"), "w") as f:
         json.dump(evidence, f, indent=1, sort_keys=True, default=str)
     print("%s: %d runs in %.1fs (%d/h), outcomes=%s, distinct traces=%d (non-trivial %d), states=%d, faults=%s" % (
         prop, len(results), wall, evidence["coverage"]["runs_per_hour"], outcomes, len(abstract),
